@@ -287,7 +287,7 @@ func c08SysRun(e *vh.Env, c c07Sys, o *vh.Out) {
 		'o': {Status: 200, Steps: []vh.Step{{Op: "write", N: 10}}},
 		'n': {Status: 404, Steps: []vh.Step{{Op: "write", N: 3}}},
 		'f': {Status: 500, Steps: []vh.Step{{Op: "write", N: 5}}},
-		'u': {Status: 503},
+		'u': {Status: 503, Interim: []vh.Interim{{Code: 103, Headers: [][2]string{{"Link", "</x>"}}}}},
 		'x': {Status: 200, Framing: "cl", Declared: 5000, Steps: []vh.Step{{Op: "write", N: 100}, {Op: "flush"}, {Op: "closeconn"}}},
 		'r': {RawReset: true},
 	}
